@@ -110,7 +110,7 @@ JudgePrf(e) ==
                   THEN "PRF:core-is-not-standard-HMAC"
              ELSE IF ~want.ok THEN "PRF:" \o want.why
              ELSE IF e.res # want.out THEN "PRF:output-not-P_hash"
-             ELSE IF e.again # e.res THEN "PRF:not-deterministic"
+             ELSE IF \E i \in 1..Len(e.again) : e.again[i] # e.res THEN "PRF:not-deterministic"
              ELSE "ok"
 
 JudgeHash(e) ==
@@ -126,7 +126,7 @@ JudgeHash(e) ==
                   THEN "Hash:core-is-not-the-standard-hash"
              ELSE IF ~want.ok THEN "Hash:" \o want.why
              ELSE IF e.res # want.out THEN "Hash:output-not-the-documented-expansion"
-             ELSE IF e.again # e.res THEN "Hash:not-deterministic"
+             ELSE IF \E i \in 1..Len(e.again) : e.again[i] # e.res THEN "Hash:not-deterministic"
              ELSE "ok"
 
 (* pairwise distinctness over a sampled set: items[i] = [k, m, res]; same declaration, one key length *)
